@@ -730,7 +730,31 @@ func (rr *routerRun) makeInject(cl *sim.Cluster, r *rand.Rand) *sim.Msg {
 			other = append(other, id)
 		}
 	}
-	switch r.IntN(4) {
+	switch r.IntN(5) {
+	case 4: // quorum member outside the exchange whose envelope names a participant as its origin
+		var outs []sim.ID
+		for _, id := range other {
+			in := false
+			for _, p := range x.parts {
+				if p == id {
+					in = true
+				}
+			}
+			if !in {
+				outs = append(outs, id)
+			}
+		}
+		if len(outs) == 0 || len(x.parts) == 0 {
+			return nil
+		}
+		m.From = outs[r.IntN(len(outs))]
+		victim := x.parts[r.IntN(len(x.parts))]
+		b, err := serde.MarshalCBOR(&envelope{From: uint64(victim), CorrelationID: x.full(), Payload: []byte("FOREIGN-forged-origin")})
+		if err != nil {
+			panic(err)
+		}
+		m.Bytes = b
+		rr.probes["inject_forged_envelope_origin"]++
 	case 0: // sender outside the quorum, real correlation id
 		m.From = 0xFFFF_FFFF_0000 + sim.ID(r.IntN(5))
 		m.Bytes = encodeEnvelope(x.full(), []byte("FOREIGN-nonmember"))
